@@ -24,6 +24,16 @@ func witnessAxioms(u *U, f Ref, ex *E) Ref {
 		}
 	}
 	ax := True
+	// a list taken from a map: a missing key yields the nil list, which has no elements
+	if m, k := mapLookupOf(coll); m != nil {
+		for _, at := range u.AtomsOf(f) {
+			if at.Op == "extract" && at.Aux == "1" && at.Args[0].Op == "lookup" && at.Args[0].Aux == "commaok" && at.Args[0].Args[0] == m && at.Args[0].Args[1] == k {
+				ax = u.bdd.And(ax, u.bdd.Imp(u.Atom(ex), u.Atom(at)))
+			}
+		}
+	}
+	// an empty collection has no elements
+	ax = u.bdd.And(ax, u.bdd.Imp(u.Atom(ex), u.bdd.Not(u.ToBool(u.Eq(u.Len(coll), u.Int(0))))))
 	seen := map[*E]bool{}
 	for _, at := range u.AtomsOf(f) {
 		for _, el := range u.Collect(at, func(x *E) bool { return x.Op == "index" && x.Args[0] == coll }) {
@@ -53,4 +63,35 @@ func sameAsExists(u *U, res Ref, ex *E) (extra, missed bool) {
 	extra = u.bdd.And(ax, u.bdd.And(res, u.bdd.Not(x))) != False
 	missed = u.bdd.And(ax, u.bdd.And(x, u.bdd.Not(res))) != False
 	return
+}
+
+// impliesNoElemCall reports whether cond implies that no element of coll
+// satisfies callName(element, lit): cond => !exists(coll, callName(bvar, lit)).
+func impliesNoElemCall(u *U, cond Ref, coll *E, callName, lit string) bool {
+	for _, at := range u.AtomsOf(cond) {
+		if at.Op != "exists" || at.Args[0] != coll || !u.bdd.Implies(cond, u.bdd.Not(u.Atom(at))) {
+			continue
+		}
+		pr := u.ToBool(at.Args[1])
+		pats := u.AtomsOf(pr)
+		if len(pats) == 1 && pr == u.Atom(pats[0]) && pats[0].Op == "call" && pats[0].Aux == callName && len(pats[0].Args) == 2 &&
+			pats[0].Args[0].Op == "bvar" && isStr(pats[0].Args[1], lit) {
+			return true
+		}
+	}
+	return false
+}
+
+// mapLookupOf: e is m[k] (plain form) or the value part of "v, ok := m[k]".
+func mapLookupOf(e *E) (m, k *E) {
+	if e == nil {
+		return nil, nil
+	}
+	if e.Op == "extract" && e.Aux == "0" && e.Args[0].Op == "lookup" {
+		e = e.Args[0]
+	}
+	if e.Op == "lookup" && len(e.Args) == 2 {
+		return e.Args[0], e.Args[1]
+	}
+	return nil, nil
 }
